@@ -160,7 +160,7 @@ def frame_cfg(spec, flat=1):
 
 def fifo_cfg(spec, flat=1):
     return {"minlen": spec.get("minlen", 1), "maxlen": spec["maxlen"], "pmax": spec.get("pmax", 1),
-            "bubbles": int(spec.get("bubbles", 1)), "rdy1": int(spec.get("rdy1", 0)),
+            "bubbles": int(spec.get("bubbles", 1)), "rdy1": int(spec.get("rdy1", 0)), "credit": int(spec.get("credit", 0)),
             "cap": spec["depth"] + (2 if spec.get("buffered") else 0) + spec.get("slack", 0),
             "npar": spec.get("npar", 2), "flat": flat}
 
@@ -176,7 +176,8 @@ def route_cfg(spec, flat=1):
         sels = list(range(m))
         bad = [m] if (spec.get("nbad", 0) and m < (1 << max(1, (m - 1).bit_length()))) else []
     return {"n": n, "m": m, "sels": sels, "badsels": bad, "minlen": spec.get("minlen", 1),
-            "maxlen": spec.get("maxlen", 2), "bubbles": int(spec.get("bubbles", 1)), "cap": 0, "flat": flat}
+            "maxlen": spec.get("maxlen", 2), "bubbles": int(spec.get("bubbles", 1)), "cap": 0, "flat": flat,
+            "npar": spec.get("npar", 2)}
 
 
 def tla_cfg(spec, flat=1):
@@ -218,6 +219,7 @@ class FrameHint:
     def init(self, cfg):
         return (None, 0, 0, None)
 
+    # ctx = (held offer, parity, beats accepted of the packet, its fields / header variant)
     @staticmethod
     def _paywords(cfg, par, k):
         bpc = cfg["dw"] // 8
@@ -268,6 +270,9 @@ class FrameHint:
         if held is not None:
             return tuple(iv[:6]) == held
         if iv[0] == 0:
+            if cfg["bubbles"] == 2 and k > 0:
+                prev = (self._paywords(cfg, par, k - 1) if cfg["kind"] != "dp" else self._rawwords(cfg, par, pv, k - 1, 0))
+                return tuple(iv[1:6]) == prev + (0,) + (tuple(pv) if cfg["kind"] != "dp" else (0, 0))
             if not (cfg["bubbles"] or k == 0):
                 return False
             if tuple(iv[1:6]) == (0, 0, 0, 0, 0):
@@ -289,29 +294,34 @@ class FrameHint:
 
 
 class FifoHint:
+    """ctx = (held offer, parity, beats accepted of the packet, its param, undelivered accepted beats)"""
     def init(self, cfg):
-        return (None, 0, 0, 0)
+        return (None, 0, 0, 0, 0)
 
     def allowed(self, cfg, ctx, iv):
-        held, par, k, p = ctx
+        held, par, k, p, occ = ctx
         if cfg["rdy1"] and iv[4] != 1:
             return False
         if held is not None:
             return tuple(iv[:4]) == held
+        starved = cfg["credit"] > 0 and occ >= cfg["credit"]
         if iv[0] == 0:
-            return tuple(iv[1:4]) == (0, 0, 0) and bool(cfg["bubbles"] or k == 0)
-        return (iv[1] == 1 + par * cfg["maxlen"] + k and _last_ok(cfg, k + 1, iv[2])
+            return tuple(iv[1:4]) == (0, 0, 0) and bool(cfg["bubbles"] or k == 0 or starved)
+        return (not starved and iv[1] == 1 + par * cfg["maxlen"] + k and _last_ok(cfg, k + 1, iv[2])
                 and (iv[3] <= cfg["pmax"] if k == 0 else iv[3] == p))
 
     def next(self, cfg, ctx, iv, o):
-        held, par, k, p = ctx
+        held, par, k, p, occ = ctx
+        if o[1] == 1 and iv[4] == 1 and occ > 0:
+            occ -= 1
         if iv[0] == 0:
-            return (None, par, k, p)
+            return (None, par, k, p, occ)
         if o[0] == 0:
-            return (tuple(iv[:4]), par, k, p)
+            return (tuple(iv[:4]), par, k, p, occ)
+        occ = min(occ + 1, cfg["cap"] + 1)
         if iv[2] == 1:
-            return (None, (par + 1) % cfg["npar"], 0, 0)
-        return (None, par, k + 1, iv[3])
+            return (None, (par + 1) % cfg["npar"], 0, 0, occ)
+        return (None, par, k + 1, iv[3], occ)
 
 
 class RouteHint:
@@ -350,7 +360,7 @@ class RouteHint:
                 if k == 0 and len(cfg["sels"]) > 1:
                     hold_sel = True
             elif t[2] == 1:
-                out.append((None, 1 - par, 0))
+                out.append((None, (par + 1) % cfg["npar"], 0))
             else:
                 out.append((None, par, k + 1))
         return (tuple(out), iv[4 * cfg["n"]] if hold_sel else None)
@@ -359,7 +369,7 @@ class RouteHint:
 # ------------------------------------------------------------------------------------------ configuration lists
 def _frame(cls, dw, hl, fields, swap=1, **env):
     spec = {"fam": "frame", "cls": cls, "dw": dw, "hl": hl, "fields": [list(f) for f in fields], "swap": swap,
-            "geom": geometry(dw, hl)}
+            "geom": geometry(dw, hl), "oddwide": int(any(f[3] > 8 and f[3] % 8 for f in fields))}
     spec.update(env)
     return spec
 
@@ -375,7 +385,7 @@ H3C = (3, [("a", 0, 3, 10), ("b", 2, 0, 7)])                # odd widths and off
 H4 = (4, [("a", 0, 0, 8), ("b", 1, 0, 24)])
 H5 = (5, [("a", 0, 0, 16), ("b", 2, 0, 24)])
 H6 = (6, [("a", 0, 0, 24), ("b", 3, 0, 24)])
-H7 = (7, [("a", 0, 0, 24), ("b", 4, 4, 20)])
+H7 = (7, [("a", 0, 0, 24), ("b", 4, 0, 24)])
 
 
 def frame_configs(tier):
@@ -399,12 +409,16 @@ def frame_configs(tier):
     for dw, (hl, f), swap in unal:
         # Depacketizer: complete environment
         L.append(_frame("Depacketizer", dw, hl, f, swap, **full))
-        # Packetizer / round trip: (a) the class the repository test exercises: packets of >= 2 beats, no pause
-        # inside a packet; (b) pauses inside packets; (c) one-beat packets
+        # Packetizer / round trip: (a) packets of >= 2 beats without a pause inside a packet; (a') pauses during
+        # which the producer keeps the last payload on the bus (what the generator of the repository test does);
+        # (b) pauses inside packets with a don't-care payload; (c) one-beat packets
         for cls in ("Packetizer", "RoundTrip"):
             if cls == "RoundTrip" and tier == "quick" and hl != 3:
                 continue
             L.append(_frame(cls, dw, hl, f, swap, minlen=2, maxlen=3, bubbles=0, junk=1))
+            L.append(_frame(cls, dw, hl, f, swap, minlen=2, maxlen=3, bubbles=2, junk=1))
+            if tier == "quick" and (cls == "RoundTrip" or hl != 3):
+                continue
             L.append(_frame(cls, dw, hl, f, swap, minlen=2, maxlen=3, bubbles=1, junk=0))
             L.append(_frame(cls, dw, hl, f, swap, minlen=1, maxlen=2, bubbles=0, junk=0))
     # --- headers shorter than one data word (header_words = 0)
@@ -424,19 +438,27 @@ def fifo_configs(tier):
         spec = {"fam": "fifo", "cls": "PacketFIFO", "dw": 8, "pw": 1}
         spec.update(kw)
         L.append(spec)
-    # (a) environments in which the payload FIFO never fills while a `last` beat is offered
-    add(depth=2, maxlen=1, rdy1=1, env="nofull")
-    add(depth=4, maxlen=3, rdy1=1, env="nofull")
-    add(depth=4, maxlen=2, rdy1=1, buffered=True, env="nofull")
-    # (b) the complete environment: packets up to the payload depth, consumer stalls freely
+    # (a) environments in which no `last` beat is offered to a full payload FIFO: an always-ready consumer with
+    #     packets shorter than the depth, or a credit-based producer (any consumer stalls)
+    add(depth=2, maxlen=1, rdy1=1, env="rdy1")
+    add(depth=2, maxlen=1, rdy1=1, buffered=True, env="rdy1")
+    if tier == "thorough":
+        add(depth=3, maxlen=2, rdy1=1, env="rdy1")
+    add(depth=2, maxlen=2, credit=2, env="credit")
+    add(depth=3, maxlen=2, credit=3, env="credit")
+    add(depth=2, maxlen=2, credit=2, buffered=True, env="credit")
+    # (b) the complete environment: packets up to the payload depth, producer and consumer stall freely
     add(depth=2, maxlen=2, env="full")
-    add(depth=3, maxlen=2, env="full")
     add(depth=2, maxlen=2, buffered=True, env="full")
     if tier == "thorough":
-        add(depth=4, maxlen=4, env="full")
-        add(depth=4, maxlen=2, pdepth=1, env="full")
-        add(depth=3, maxlen=3, buffered=True, env="full")
-        add(depth=4, maxlen=4, rdy1=1, env="rdy1")
+        add(depth=3, maxlen=3, credit=3, env="credit")
+        add(depth=3, maxlen=2, credit=3, pdepth=1, env="credit")
+        add(depth=3, maxlen=2, credit=3, buffered=True, env="credit")
+        add(depth=4, maxlen=3, credit=4, npar=1, pmax=1, env="credit")
+        add(depth=4, maxlen=3, rdy1=1, npar=1, env="rdy1")
+        add(depth=3, maxlen=3, env="full")
+        add(depth=3, maxlen=2, pdepth=1, env="full")
+        add(depth=4, maxlen=4, npar=1, env="full")
     return L
 
 
@@ -449,15 +471,16 @@ def route_configs(tier):
         L.append(spec)
     add("Arbiter", 1, 1, maxlen=2)
     add("Arbiter", 2, 1, maxlen=3)
-    add("Arbiter", 3, 1, maxlen=2)
+    add("Arbiter", 3, 1, maxlen=2, npar=1, bubbles=0 if tier == "quick" else 1)
     add("Dispatcher", 1, 1, maxlen=2)
     add("Dispatcher", 1, 2, maxlen=3)
     add("Dispatcher", 1, 2, maxlen=2, one_hot=True, nbad=2)
-    add("Dispatcher", 1, 3, maxlen=2, nbad=1)
+    add("Dispatcher", 1, 3, maxlen=2, nbad=1, npar=1)
     if tier == "thorough":
-        add("Arbiter", 3, 1, maxlen=3)
-        add("Arbiter", 4, 1, maxlen=2, bubbles=0)
+        add("Arbiter", 3, 1, maxlen=2)
+        add("Arbiter", 3, 1, maxlen=3, npar=1, bubbles=0)
+        add("Arbiter", 4, 1, maxlen=2, npar=1, bubbles=0)
         add("Dispatcher", 1, 3, maxlen=3, one_hot=True, nbad=2)
-        add("Dispatcher", 1, 4, maxlen=2)
+        add("Dispatcher", 1, 4, maxlen=2, npar=1)
         add("Dispatcher", 1, 1, maxlen=2, one_hot=True, nbad=1)
     return L
